@@ -191,6 +191,8 @@ def run(ctx):
                 ctx.violation('decode_with_length / decode_length disagree with the length octets on a message that holds a constructed string with zero segments',
                               {'module': text, 'msg': hx, 'tail': tail.hex(), 'decode_with_length': repr((d2, n)), 'decode_length': pl, 'expected_length': len(msg), 'expected_value': repr(want)})
 
+    from .. import scripted
+    scripted.choice_unknown_long_tag(ctx)
     # (c) messages of a NEWER version (unknown extension additions / alternatives after known ones): "any valid definite-length
     # encoding" includes those — the receiver's decode_with_length must still report the whole message, whatever it skips inside
     from ..extend import extend, project
